@@ -660,6 +660,22 @@ package sql
 //@   at call ExecWithValue#1: assert hands-over-the-callers-statement: arg_execCtx != nil && arg_execCtx.Query == s.query && arg_execCtx.Values == args && arg_execCtx.TxCtx == s.txCtx
 //@   may_panic
 
+// The transaction context made for ONE statement (mode AT, the xid of the caller's global transaction) does
+// not stay on the connection: with it a later statement under a plain context would be parsed, locked and
+// logged as part of a global transaction that is not the caller's.
+//@ iface (driver.ConnPrepareContext).PrepareContext
+//@   ensures true
+//@ func (*ATConn).PrepareContext
+//@   prop C16 C02
+//@   requires c != nil && c.Conn != nil && c.Conn.txCtx != nil && c.Conn.res != nil && c.Conn.targetConn != nil && ctx != nil
+//@   let cv := ctxvalue(ctx, tm.seataContextVariable)
+//@   requires cv != nil ==> isT(cv, *tm.ContextVariable) && cv.(*tm.ContextVariable) != nil
+//@   let once := cv != nil && cv.(*tm.ContextVariable).Xid != "" && c.Conn.autoCommit
+//@   modifies c.Conn.txCtx, ghost.dstep_failed
+//@   ensures the-one-statement-context-does-not-stay-on-the-connection: once ==> c.Conn.txCtx != nil && c.Conn.txCtx.TransactionMode == types.Local && c.Conn.txCtx.XID == ""
+//@   ensures otherwise-untouched: !once ==> c.Conn.txCtx == old(c.Conn.txCtx)
+//@   may_panic
+
 //@ func (*ATConn).ExecContext$2
 //@   prop C16 C01 C02
 //@   requires c != nil && c.Conn != nil && c.Conn.txCtx != nil && c.Conn.res != nil && c.Conn.targetConn != nil && ctx != nil
